@@ -140,9 +140,20 @@ def run_doc_case(case, env, focus, stats, syntax_compilers=()):
             _bump(probes, "documents_whose_header_failed_to_compile")
             if focus == "build":
                 for stage, text in sorted(b["errors"].items()):
-                    key = classify_compile_error(text)
+                    key = classify_compile_error(text, tr["header"])
                     viol.append(V("compile", "c16:cxx-compile:" + key, "accepted document, but the header does not compile (%s):\n%s\n--- document\n%s"
                                   % (stage, "\n".join(text.splitlines()[:14]), doc["qml"][:3000]), stage=stage))
+            if focus == "handlers":
+                # a connect() to a signal overload that does not exist in C++ (e.g. a default-argument clone
+                # taken for a function of its own) is "wired to the wrong signal", seen at build time
+                signames = sorted(set(h["signal"] for o in doc["objects"] + [doc["root"]] for h in o["handlers"]))
+                for stage, text in sorted(b["errors"].items()):
+                    hit = [n for n in signames if ("::%s)" % n) in text or ("::%s'" % n) in text]
+                    if hit:
+                        viol.append(V("wiring", "c13:handler-connection-does-not-compile",
+                                      "the connection set up for handler signal %s does not compile against the class declarations (%s):\n%s\n--- document\n%s"
+                                      % (hit, stage, "\n".join(l for l in text.splitlines() if "error" in l or "QOverload" in l)[:1200], doc["qml"][:2500])))
+                        break
             if not b["binary"]:
                 return viol, fps, {"document": doc["qml"][:1500], "compile_errors": sorted(b["errors"])}
         names, mapping = name_mapping(doc, b["info"])
@@ -239,21 +250,31 @@ def hash_text(t):
     return hashlib.sha256(t.encode("utf-8")).hexdigest()[:12]
 
 
-def classify_compile_error(text):
-    """stable key for a compile failure: the construct, not the document"""
+def classify_compile_error(text, header_text=""):
+    """stable, compiler-independent key for a compile failure: the construct on the offending header line"""
+    import re
+    hl = header_text.splitlines()
     for line in text.splitlines():
-        if "error:" in line:
-            msg = line.split("error:", 1)[1].strip()
-            if "invalid operands" in msg and "%" in msg:
-                return "double-rem"
-            if "\\u" in msg or "universal character" in msg or "incomplete universal" in msg or "not a valid universal" in msg:
-                return "string-escape"
-            if "no matching function for call to 'max" in msg or "no matching function for call to 'min" in msg or "std::max" in msg or "std::min" in msg:
-                return "minmax-mixed-types"
-            import re
-            msg = re.sub(r"'[^']*'", "'_'", msg)
-            msg = re.sub(r"[0-9]+", "N", msg)
-            return msg[:60].replace(" ", "-")
+        m = re.search(r"uisupport_\w+\.h:(\d+):(\d+): error: (.*)$", line)
+        if not m:
+            continue
+        ln = int(m.group(1))
+        src = hl[ln - 1] if 0 < ln <= len(hl) else ""
+        msg = m.group(3)
+        if "\\u{" in src or "universal character" in msg:
+            return "string-escape"
+        if re.search(r"\ba\d+ % |% \d+(\.\d+)?e", src) and ("operands" in msg):
+            return "double-rem"
+        if "std::max(" in src or "std::min(" in src:
+            return "minmax-mixed-types"
+        if "redeclar" in msg or "cannot be overloaded" in msg or "redefinition" in msg or "duplicate" in msg:
+            return "duplicate-name"
+        msg = re.sub(r"[‘'][^’']*[’']", "_", msg)
+        msg = re.sub(r"[0-9]+", "N", msg)
+        return re.sub(r"[^A-Za-z_]+", "-", msg)[:50].strip("-")
+    for line in text.splitlines():
+        if "error" in line:
+            return re.sub(r"[^A-Za-z_]+", "-", line.split("error", 1)[1])[:50].strip("-")
     return "unknown"
 
 
